@@ -234,6 +234,48 @@ def corpus_rows(ctx):
     return (rerun(ctx, cases, "corpus") or []) if cases else []
 
 
+RACE_KEY = "cancel-race:late-return"
+
+
+def race_sweep(ctx, attempts, tag="race"):
+    """Cancel-race sweep (failing-input search and thorough tier): a stalling loopback peer cancels the scan's context on
+    accept + a swept busy-wait of 0..100 us, so the cancellation lands everywhere between "dial returned" and "blocked
+    in the reply read".  Judged by the property alone: Scan must return within the cancellation + slack (300 ms), far
+    below the data timeout (800 ms); three late returns are required before anything is reported."""
+    ok, _ = ctx.harness_run("c09", ["-out", "%s.jsonl" % tag, "-race", attempts], timeout=900)
+    if not ok:
+        return None
+    rows = ctx.read_jsonl(os.path.join(ctx.work, "%s.jsonl" % tag))
+    if not rows:
+        return None
+    rows[0]["late"] = rows[0].get("late") or []
+    return rows[0]
+
+
+def judge_race(r):
+    if r and len(r["late"]) >= 3:
+        worst = max(l["latency_ms"] for l in r["late"])
+        return ("a probe whose context is cancelled right after the connection is established (peer accepts and stalls) "
+                "returns %.0f ms after the cancellation, i.e. it sits out the %d ms data timeout instead of ending promptly "
+                "(%d late returns in %d attempts; median latency %.1f ms)" % (
+                    worst, r["tdata"], len(r["late"]), r["attempts"], r["median_ms"]))
+    return None
+
+
+def report_race(ctx, r, why):
+    if any(f["key"] == RACE_KEY for f in ctx.findings):
+        return
+    path = ctx.write_replay("cancel-race", {
+        "property": "C09", "what": why,
+        "input": {"race": True, "attempts": r["max_attempts"], "tdial_ms": r["tdial"], "tdata_ms": r["tdata"],
+                  "slack_ms": r["slack_ms"], "spin_us": "0..%d step 2, by attempt number" % r["spin_max_us"],
+                  "peer": "loopback listener; on accept: busy-wait spin_us, cancel the context, (odd blocks: send one byte 05,) stall"},
+        "observed": {"attempts_made": r["attempts"], "gomaxprocs": r["gomaxprocs"], "median_latency_ms": r["median_ms"],
+                     "worst_latency_ms": r["worst_ms"], "late_returns": r["late"]},
+        "replay_cmd": "bin/check C09 --replay <this file>"})
+    ctx.findings.append({"key": RACE_KEY, "what": why, "replay": path})
+
+
 def shape(o):
     return (o["class"], o["mode"], o["read_first"], tuple((a["kind"], tuple((a.get("data") or [])[:2])) for a in o["actions"] or []))
 
@@ -340,7 +382,20 @@ def run(ctx):
         ctx.info.append("%d further failing cases of the same kinds are not listed" % ctx.suppressed)
     if early:
         ctx.info.append("%d cases returned earlier than the model's logical duration (not an alarm)" % early)
-    if ctx.broken and not ctx.findings and os.path.exists(os.path.join(verif.ROOT, "harness", "bin", "c09")):
+    have_bin = os.path.exists(os.path.join(verif.ROOT, "harness", "bin", "c09"))
+    if have_bin and (not quick or (ctx.broken and not ctx.findings)):
+        # interleaving-dependent cancellation failures: swept cancel-right-after-connect (thorough: always)
+        r = race_sweep(ctx, 400 if quick else 1200)
+        if r:
+            ctx.count("cancel-race", ("cancel-race", r["attempts"]), nontrivial=True,
+                      sample={"class": "cancel-race", "attempts": r["attempts"], "tdata_ms": r["tdata"],
+                              "median_latency_ms": r["median_ms"], "worst_latency_ms": r["worst_ms"],
+                              "late": len(r["late"])})
+            ctx.cov["evaluations"] += r["attempts"] - 1
+            why = judge_race(r)
+            if why:
+                report_race(ctx, r, why)
+    if ctx.broken and not ctx.findings and have_bin:
         # a tie or a proof broke: look harder for a concrete failing input on the real code
         ok, _ = ctx.harness_run("c09", ["-out", "search.jsonl", "-seed", ctx.seed + 17, "-n", 1500, "-sample", 2500],
                                 timeout=1200)
@@ -367,6 +422,16 @@ def replay(ctx, path):
         print(json.dumps(r, indent=1))
         return 1
     if not ctx.harness_build("c09"):
+        return 1
+    if r["input"].get("race"):
+        for k in range(2):
+            row = race_sweep(ctx, r["input"].get("attempts", 400), "race_replay%d" % k)
+            why = judge_race(row)
+            print("replay cancel-race sweep: %d attempts, median latency %.1f ms, worst %.1f ms, late returns: %s -> %s" % (
+                row["attempts"], row["median_ms"], row["worst_ms"],
+                [(l["spin_us"], round(l["latency_ms"])) for l in row["late"]], why or "property holds on this input"))
+            if not why:
+                return 0
         return 1
     c = dict(r["input"])
     c.update({"port": 0, "obs": 0, "err": "", "dur_ms": 0, "greet": None, "rec": None, "tries": 0})
